@@ -1,6 +1,7 @@
 package rules
 
 import (
+	"fmt"
 	"go/token"
 	"go/types"
 
@@ -27,7 +28,7 @@ func condCut(m func(ssa.Value) bool, want bool) core.CutFunc {
 
 func c20(r *core.Report) {
 	p := r.P
-	r.Explanation = "Static necessary conditions of 'iterative DHT operations are bounded and truthful': (ADMIT) in dhtIterate the only growth of the candidate list is an append guarded by 'strictly closer to the key than the node just contacted' and by 'not already queued', with the distance test applied to (key, candidate, contacted node); the window n is at least 1; with both guards the multiset of candidate distances decreases in the Dershowitz-Manna order every round whatever responders return, which is the termination argument the rule's premises support; (TRUTH) DHTPut returns a non-nil error exactly on the edge accepted < minimum and counts an acceptance only when the response says so; DHTGet records a value and its source only for a non-nil value that passed validation, taken from that node's response, and errs exactly when no source was recorded; DHTFindNode errs exactly when the closest node is not the target; HandleFindNode caps the list it returns at 10. 'Each distinct node contacted at most once' and 'closest among those contacted' quantify over topologies and are not decided."
+	r.Explanation = "Static necessary conditions of 'iterative DHT operations are bounded and truthful': (ADMIT) in dhtIterate the only growth of the candidate list is an append guarded by 'strictly closer to the key than the node just contacted' and by 'not already queued', with the distance test applied to (key, candidate, contacted node); the window n is at least 1; with both guards the multiset of candidate distances decreases in the Dershowitz-Manna order every round whatever responders return, which is the termination argument the rule's premises support; (TRUTH) DHTPut returns a non-nil error exactly on the edge accepted < minimum and counts an acceptance only when the response says so; DHTGet records a value and its source only for a non-nil value that passed validation, taken from that node's response, and errs exactly when no source was recorded; DHTFindNode errs exactly when the closest node is not the target; HandleFindNode caps the list it returns at 10. (CLOSEST) every update of a result's Closest field stores the contacted node's id under the guard 'unset or strictly nearer to the key'. 'Each distinct node contacted at most once' quantifies over topologies and is not decided."
 	r.Assumptions = []string{"DistanceLt is a strict order on distances (property C19, not decided here)"}
 	r.Trusted = []string{"go/types, go/ssa (x/tools v0.29.0)"}
 	iter := needFn(r, "p/kademlia", "dhtIterate")
@@ -124,6 +125,160 @@ func c20(r *core.Report) {
 			}
 		}
 		r.Check(okN, "C20-ADMIT", core.FnName(fn)+" window", p.Pos(fn.Pos()), "the candidate window is at least 1 before anything is popped", "the candidate window can be 0: the list is truncated to nothing and pop indexes an empty slice")
+	}
+
+	// ---- C20-VISIT-ONCE: "contacting each distinct node at most once": the callback is reached only
+	// through the 'not yet visited' edge of a lookup of the popped node's id in a set local to
+	// dhtIterate, and the id is added to that set before the callback runs. (With both, no id is ever
+	// handed to the callback twice, whatever lists the responders return.)
+	r.Rule("C20-VISIT-ONCE", "dhtIterate hands a node to the callback only after a visited-set miss on its id, and records the id first", 2)
+	{
+		var fnCalls []*ssa.Call
+		for _, in := range core.AllInstrs(iter) {
+			if c, ok := in.(*ssa.Call); ok && core.IsParamFuncCall(c.Common()) {
+				fnCalls = append(fnCalls, c)
+			}
+		}
+		r.Check(len(fnCalls) == 1, "C20-VISIT-ONCE", "dhtIterate single callback site", p.Pos(iter.Pos()), "the callback is invoked at one site", fmt.Sprintf("the callback is invoked at %d sites", len(fnCalls)))
+		for _, fc := range fnCalls {
+			// the node handed to the callback: where its id comes from
+			nodeIDOf := func(v ssa.Value) bool {
+				// v derives from the ID field of the same cell/value that is passed to fn
+				arg := core.Through(fc.Call.Args[0])
+				return core.DerivesFrom(v, func(x ssa.Value) bool {
+					f, base := core.FieldRead(x)
+					if f == nil || f.Name() != "ID" {
+						if fa, ok := x.(*ssa.FieldAddr); ok {
+							f2, b2 := core.FieldOfAddr(fa)
+							if f2 != nil && f2.Name() == "ID" {
+								return core.Through(&ssa.UnOp{Op: token.MUL, X: b2}) == arg || sameCellValue(b2, fc.Call.Args[0])
+							}
+						}
+						return false
+					}
+					return core.Through(base) == arg || sameCellValue(base, fc.Call.Args[0])
+				})
+			}
+			var set ssa.Value
+			cutMiss := func(b *ssa.BasicBlock, i int) bool {
+				iff, ok := b.Instrs[len(b.Instrs)-1].(*ssa.If)
+				if !ok {
+					return false
+				}
+				cond, neg := core.StripNot(iff.Cond)
+				ex, ok := cond.(*ssa.Extract)
+				if !ok || ex.Index != 1 {
+					return false
+				}
+				lk, ok := ex.Tuple.(*ssa.Lookup)
+				if !ok || !lk.CommaOk {
+					return false
+				}
+				if _, isMake := lk.X.(*ssa.MakeMap); !isMake || !nodeIDOf(lk.Index) {
+					return false
+				}
+				set = lk.X
+				// the miss edge: ok == false
+				missEdge := 1
+				if neg {
+					missEdge = 0
+				}
+				return i == missEdge
+			}
+			guarded := core.GuardEdges(iter, cutMiss) > 0 && core.GuardedFromEntry(iter, fc, cutMiss)
+			r.Check(guarded, "C20-VISIT-ONCE", "dhtIterate callback after visited-set miss", p.Pos(fc.Pos()), "the callback is reachable only through the miss edge of a lookup of the node's id in a local set", "a node is handed to the callback without a visited-set test on its id: a node that was contacted and removed from the candidate list is contacted again when a farther node names it (or when it is listed twice initially), so contacts and accepted counts are inflated and adversarial peer lists multiply the work")
+			if !guarded || set == nil {
+				continue
+			}
+			// the id is recorded before the callback on every path from the miss edge
+			recorded := true
+			for _, b := range iter.Blocks {
+				for i := range b.Succs {
+					if !cutMiss(b, i) {
+						continue
+					}
+					first := b.Succs[i].Instrs[0]
+					reach := core.ReachAt(iter, first, nil, func(in ssa.Instruction) bool {
+						mu, ok := in.(*ssa.MapUpdate)
+						return ok && mu.Map == set && nodeIDOf(mu.Key)
+					})
+					if reach[fc] {
+						recorded = false
+					}
+				}
+			}
+			r.Check(recorded, "C20-VISIT-ONCE", "dhtIterate records before calling", p.Pos(fc.Pos()), "the node's id is added to the set on every path from the miss to the callback", "the node's id is not added to the visited set before the callback: the same node passes the test again later")
+		}
+	}
+
+	// ---- C20-CLOSEST: "the reported closest node is the nearest among those contacted": every store
+	// of the contacted node's id into a result's Closest field is guarded by `Closest is unset` or
+	// `DistanceLt(key, node.ID, Closest)`, and both guards exist (starting from the all-zero id without
+	// the unset test reports the zero id, or misses every node farther from the key than zero)
+	r.Rule("C20-CLOSEST", "Closest is replaced only by a node strictly nearer to the key, or when it is still unset", 3)
+	nClosest := 0
+	for _, root := range []*ssa.Function{find, get, put} {
+		for _, lit := range core.WithAnons(root) {
+			if lit == root || len(lit.Params) != 1 {
+				continue
+			}
+			node := lit.Params[0]
+			for _, in := range core.AllInstrs(lit) {
+				st, ok := in.(*ssa.Store)
+				if !ok {
+					continue
+				}
+				f, _ := core.FieldOfAddr(st.Addr)
+				if f == nil || f.Name() != "Closest" {
+					continue
+				}
+				nClosest++
+				c := core.FnName(root) + " Closest"
+				isClosestRead := func(v ssa.Value) bool {
+					return core.DerivesFrom(v, func(x ssa.Value) bool {
+						if fa, ok := x.(*ssa.FieldAddr); ok {
+							f2, _ := core.FieldOfAddr(fa)
+							return f2 != nil && f2.Name() == "Closest"
+						}
+						f2, _ := core.FieldRead(x)
+						return f2 != nil && f2.Name() == "Closest"
+					})
+				}
+				fromNode := func(v ssa.Value) bool {
+					return core.DerivesFrom(v, func(x ssa.Value) bool { return x == ssa.Value(node) })
+				}
+				r.Check(fromNode(st.Val), "C20-CLOSEST", c+" value", p.Pos(st.Pos()), "the recorded id is the contacted node's", "Closest is set to something other than the contacted node's id")
+				cutZero := core.CutWhere(func(cond ssa.Value) int {
+					cl, ok := cond.(*ssa.Call)
+					if ok && core.CalleeName(cl.Common()) == "(go.brendoncarroll.net/p2p.PeerID).IsZero" && len(cl.Call.Args) == 1 && isClosestRead(cl.Call.Args[0]) {
+						return 1
+					}
+					return 0
+				})
+				cutLt := core.CutWhere(func(cond ssa.Value) int {
+					cl, ok := cond.(*ssa.Call)
+					if ok && core.IsCallToFn(cl.Common(), distLt) && len(cl.Call.Args) == 3 && fromNode(cl.Call.Args[1]) && isClosestRead(cl.Call.Args[2]) && !fromNode(cl.Call.Args[0]) && !isClosestRead(cl.Call.Args[0]) {
+						return 1
+					}
+					return 0
+				})
+				hasZero, hasLt := core.GuardEdges(lit, cutZero) > 0, core.GuardEdges(lit, cutLt) > 0
+				guarded := core.GuardedFromEntry(lit, st, core.CutAny(cutZero, cutLt))
+				why := ""
+				switch {
+				case !guarded:
+					why = "Closest is overwritten without comparing distances (it ends up being the last node that answered, not the nearest)"
+				case !hasLt:
+					why = "no DistanceLt(key, node.ID, Closest) guards the replacement"
+				case !hasZero:
+					why = "Closest starts as the all-zero id and there is no 'still unset' test: a node is recorded only if it is nearer to the key than the zero id, so for keys near zero the result names the zero id, which is no node at all"
+				}
+				r.Check(why == "", "C20-CLOSEST", c+" guard", p.Pos(st.Pos()), "replaced only when unset or when the contacted node is strictly nearer to the key", why)
+			}
+		}
+	}
+	if nClosest < 3 {
+		r.Fail("C20-CLOSEST: %d stores to a Closest field found in the iteration callbacks, 3 confirmed on the pinned tree", nClosest)
 	}
 
 	// ---- C20-TRUTH
@@ -356,4 +511,26 @@ func boundedAbove(v ssa.Value, k int64) bool {
 		}
 	}
 	return true
+}
+
+// sameCellValue: addr is (an address inside) the local cell whose load is v.
+func sameCellValue(addr ssa.Value, v ssa.Value) bool {
+	u, ok := v.(*ssa.UnOp)
+	if !ok || u.Op != token.MUL {
+		return false
+	}
+	for i := 0; i < 4; i++ {
+		if addr == u.X {
+			return true
+		}
+		switch x := addr.(type) {
+		case *ssa.FieldAddr:
+			addr = x.X
+		case *ssa.IndexAddr:
+			addr = x.X
+		default:
+			return false
+		}
+	}
+	return false
 }
